@@ -14,6 +14,8 @@ var checks = map[string]func(job *Job, r *Report){
 	"C02": C02,
 	"C03": C03,
 	"C18": C18,
+	"C13": C13,
+	"C08": C08,
 }
 
 // Main is the entry point of vworker.
@@ -113,6 +115,10 @@ func xspecsFor(check, tier string) []*XSpec {
 		return gcSpecs("C03", tier, false)
 	case "C18":
 		return gcSpecs("C18", tier, true)
+	case "C13":
+		return c13Specs(tier)
+	case "C08":
+		return c08Specs(tier)
 	}
 	return nil
 }
